@@ -32,6 +32,7 @@ func runC09(r *an.Run) {
 	c09APIFailure(r)
 	compiledProgramReadOnly(r, "R5-no-state-survives-between-changes")
 	noPackageLevelState(r, "R5-no-state-survives-between-changes")
+	parseTimeState(r, "R6-no-stale-parse-time-state")
 }
 
 // appendsToSelf checks `X = append(X, elem)` where X is the given path, and
